@@ -701,6 +701,10 @@ class Mesh:
         if isinstance(other, Mesh):
             other = [other]
         if isinstance(other, list):
+            if any(m.dofs.element_dofs.shape[0] > m.t.shape[0]
+                   for m in [self] + other):
+                raise NotImplementedError("Joining higher order meshes with "
+                                          "shared points is not supported.")
             p = np.hstack((self.p,) + tuple([mesh.p for mesh in other]))
             pT = np.ascontiguousarray(p.T)
             _, ixa, ixb = np.unique(pT.view([('', pT.dtype)] * pT.shape[1]),
@@ -723,7 +727,9 @@ class Mesh:
             raise TypeError("Can only join meshes with same type.")
         p = np.hstack((self.p.round(decimals=8),
                        other.p.round(decimals=8)))
-        t = np.hstack((self.t, other.t + self.p.shape[1]))
+        # all nodes of the elements, see Mesh.restrict
+        t = np.hstack((self.dofs.element_dofs,
+                       other.dofs.element_dofs + self.p.shape[1]))
         return cls(*self._remove_duplicate_nodes(p, t))
 
     def __repr__(self):
@@ -1293,8 +1299,9 @@ class Mesh:
         )
 
     def remove_duplicate_nodes(self):
+        # all nodes of the elements, see Mesh.restrict
         p, t = self._remove_duplicate_nodes(self.doflocs,
-                                            self.t)
+                                            self.dofs.element_dofs)
         m = replace(
             self,
             doflocs=p,
@@ -1308,7 +1315,9 @@ class Mesh:
         # new index of each facet among the facets of one of its elements
         # which have kept their indices
         newp = np.zeros(self.doflocs.shape[1], dtype=np.int64)
-        newp[self.t] = t
+        # new numbers of the vertices in the order of self.t; the constructor
+        # has sorted m.t or, for higher order meshes, renumbered the vertices
+        newp[self.t] = t if m.sort_t else m.t
         candidates = m.t2f[:, self.f2t[0]]
         match = (self._sort_entities(m.facets)[:, candidates]
                  == self._sort_entities(newp[self.facets])[:, None]
